@@ -132,3 +132,49 @@ def dataset (cfg : Config) (rows : List (Row α)) : List MeanResult :=
     else .mean (sumVecs cfg.nk (rows.map fun r => (rowVec cfg r).getD j [])) rows.length
 
 end MlModel.Spec.Retrieval
+
+/-! # Thresholded retrieval (pooled / micro precision, recall, F1 per probability threshold)
+
+Per example: the ranking `P` with one probability per prediction, the relevant items `T`.
+At threshold `t` the predicted positives are the predictions with probability `> t`. -/
+namespace MlModel.Spec.Retrieval.Thr
+open MlModel.Agg.Retrieval.Thr
+
+variable {α : Type} [DecidableEq α]
+
+/-- predicted positives of one example at threshold `t` -/
+def predPos (r : MlModel.Agg.Retrieval.Thr.Row α) (t : Rat) : Nat := r.pairs.countP fun (q, _) => q > t
+
+/-- … of which relevant -/
+def predTP (r : MlModel.Agg.Retrieval.Thr.Row α) (t : Rat) : Nat := r.pairs.countP fun (q, p) => p ∈ r.yTrue ∧ q > t
+
+/-- relevant items of one example that are retrieved with probability `> t` -/
+def trueTP (r : MlModel.Agg.Retrieval.Thr.Row α) (t : Rat) : Nat :=
+  r.yTrue.countP fun x => r.pairs.any fun (q, p) => p = x ∧ q > t
+
+def sumOver (rows : List (MlModel.Agg.Retrieval.Thr.Row α)) (f : MlModel.Agg.Retrieval.Thr.Row α → Nat) : Nat := (rows.map f).foldl (· + ·) 0
+
+/-- pooled precision at `t`: `Σ TP / Σ predicted positives` (0 when nothing is predicted) -/
+def precision (rows : List (MlModel.Agg.Retrieval.Thr.Row α)) (t : Rat) : Rat :=
+  if sumOver rows (predPos · t) = 0 then 0
+  else (sumOver rows (predTP · t) : Rat) / (sumOver rows (predPos · t) : Rat)
+
+/-- pooled recall at `t`: `Σ retrieved relevant / Σ relevant` (0 when nothing is relevant) -/
+def recall (rows : List (MlModel.Agg.Retrieval.Thr.Row α)) (t : Rat) : Rat :=
+  if sumOver rows (·.yTrue.length) = 0 then 0
+  else (sumOver rows (trueTP · t) : Rat) / (sumOver rows (·.yTrue.length) : Rat)
+
+def f1 (rows : List (MlModel.Agg.Retrieval.Thr.Row α)) (t : Rat) : Rat :=
+  let p := precision rows t
+  let r := recall rows t
+  if p + r = 0 then 0 else 2 * p * r / (p + r)
+
+/-- the documented input domain: one probability per prediction, probabilities in `[0, ∞)`,
+a ranking of distinct items, a label set without repetitions -/
+structure RowOk (r : MlModel.Agg.Retrieval.Thr.Row α) : Prop where
+  len : r.probs.length = r.yPred.length
+  nonneg : ∀ q ∈ r.probs, 0 ≤ q
+  predNodup : r.yPred.Nodup
+  trueNodup : r.yTrue.Nodup
+
+end MlModel.Spec.Retrieval.Thr
